@@ -221,6 +221,7 @@ func init() {
 			{Name: "bytes", Run: c12Bytes},
 			{Name: "hugek", QShards: 2, TShards: 8, Run: c12HugeK},
 			{Name: "readers", Race: true, QShards: 2, TShards: 4, Run: c12Readers},
+			{Name: "parallel", Race: true, Run: sequtilParallel("revcomp")},
 		},
 	})
 }
